@@ -79,6 +79,7 @@ IResolve(n, sp, dm, ds) ==
     [] sp = "var"  -> Find(cur, n)                       \* runtime.resolve_var: no privacy check
     [] sp = "bind" -> IResolveBare(n, dm, ds)
     [] sp = "redef" -> IResolveBare(n, dm, ds)
+    [] sp = "fqp"  -> IResolveIn(cur, n, FALSE)
 
 (* ------------------------------ reads as built ---------------------------------------- *)
 Linkable(x) == x = cur \/ req[cur]
